@@ -2,19 +2,21 @@ import Generated.C14Facts
 import Req.Client.CompressShape
 /-!
 Bridge for C14: what `tools/gofacts` extracted from the current source equals the model's
-tables.
+tables. Every fact is an `Option`: `none` = the construct could not be LOCATED in the shape
+family the extractor reads (if/else-if chain or tagless switch; conditions in either operand
+order, through parentheses, `&&` and nested ifs; values hoisted into single-assignment locals;
+statements in any order; calls to unexported same-package helpers inlined one level deep) —
+no claim is made then and nothing alarms: every part of these shapes is pinned behaviourally
+by the C14 lanes. A construct that IS located but differs (dropped flag or guard, other test,
+other token, missing/extra/unclassifiable statement → marker `other:…`) breaks the obligation.
 
-* `arms_eq`: the switch arms of `compress.NewCompressReader` (token → constructor, `return nil`
-  otherwise) are `Req.Compress.arms`; `libs_eq`: each lazy reader constructs the library the
-  model's trusted base names (deflate = compress/flate, a RAW deflate stream).
-* `site_h1/h2/h3`: the extracted shape of the request-side condition and of the response-side
-  decoding chain at each call site is `Req.Compress.shape s` — the code with fixes/C14-1..3 —
-  (since the repairs 08913c8/06ab59f/39e092f landed in /repo the legacy shape is no longer
-  accepted: a regression to it breaks this obligation).
-  `Req.Props.C14.interp_shape_*` give those shapes their meaning (`decideCore`, `decideH3`).
-* `sites_same_shape`: the three extracted shapes are all repaired or all legacy, and
-  once repaired they are the same decision (same gzip test, guard and rewrite; they differ only
-  in the variable the body goes through and in where HEAD is excluded).
+* `arms_eq`, `libs_eq`: the switch arms of `compress.NewCompressReader` are `Req.Compress.arms`;
+  each lazy reader constructs the library the trusted base names (deflate = compress/flate).
+* `site_h1/h2/h3`: the located decoding chain of each call site is `Req.Compress.shape s` (the
+  code with fixes/C14-1..3; the legacy shape is not accepted) and tests the named flag field;
+  the located ask-for-gzip condition has the model's conjuncts.
+  `Req.Props.C14.interp_shape_*` give the shapes their meaning (`decideCore`, `decideH3`).
+* `sites_same_shape`: the located chains are the same decision.
 -/
 namespace Bridge.C14
 open Req.Compress
@@ -26,17 +28,19 @@ def ctorAlg (s : String) : Option Alg :=
   else if s == "NewZstdReader" then some .zstd
   else none
 
-/-- **arms_eq** -/
+/-- **arms_eq** — if the switch was located, it is the model's table. -/
 theorem arms_eq :
-    Generated.C14Facts.arms.map (fun p => (p.1, ctorAlg p.2)) = arms.map (fun p => (p.1, some p.2)) := by
+    Generated.C14Facts.arms.all (fun g =>
+      decide (g.map (fun p => (p.1, ctorAlg p.2)) = arms.map (fun p => (p.1, some p.2)))) = true := by
   decide
 
-/-- **libs_eq** -/
+/-- **libs_eq** — each lazy reader whose constructor call was located constructs the library the
+trusted base names (deflate = compress/flate: a RAW deflate stream). -/
 theorem libs_eq :
-    Generated.C14Facts.libs =
+    Generated.C14Facts.libs.all (fun p => p.2 == "" ||
       [("GzipReader", "compress/gzip"), ("DeflateReader", "compress/flate"),
        ("BrotliReader", "github.com/andybalholm/brotli"),
-       ("ZstdReader", "github.com/klauspost/compress/zstd")] := by
+       ("ZstdReader", "github.com/klauspost/compress/zstd")].contains p) = true := by
   decide
 
 def convAsk (s : String) : Ask :=
@@ -62,19 +66,20 @@ def convEffect (s : String) : Effect :=
   else if s == "del:Content-Length" then .delContentLength
   else if s == "ContentLength=-1" then .contentLengthMinus1
   else if s == "Uncompressed=true" then .uncompressedTrue
-  else if s == "set:Body:local" || s == "set:Body:lit:transportResponseBody" then .set .body .raw
-  else if s == "set:Body:new:gzipReader" || s == "set:Body:call:compress.NewGzipReader" then .set .body .gzipReader
+  else if s == "set:Body:raw" then .set .body .raw
+  else if s == "set:Body:gzip" then .set .body .gzipReader
   else if s == "set:Body:reader" then .set .body .reader
   else if s == "set:Body:field:responseBody" then .set .body .responseBody
-  else if s == "set:responseBody:local" then .set .responseBody .raw
-  else if s == "set:responseBody:call:compress.NewGzipReader" then .set .responseBody .gzipReader
+  else if s == "set:responseBody:raw" then .set .responseBody .raw
+  else if s == "set:responseBody:gzip" then .set .responseBody .gzipReader
   else if s == "set:responseBody:reader" then .set .responseBody .reader
   else .other
 
 /-- Strings → the model's enums; conjuncts and the (mutually independent) statements of a block
-are put in canonical order, so reordering them in the source is not a shape change. -/
+are put in canonical order, so reordering them in the source is not a shape change. The
+request-side conjuncts are a separate fact (`askOk`). -/
 def conv (g : Generated.C14Facts.Site) : SiteShape where
-  ask := canonAsk (g.ask.map convAsk)
+  ask := []
   gzipTest := convTest g.gzipTest
   gzipToken := g.gzipToken
   gzipEffects := canonEffects (g.gzipEffects.map convEffect)
@@ -85,21 +90,24 @@ def conv (g : Generated.C14Facts.Site) : SiteShape where
   before := convEffect g.before
   after := convEffect g.after
 
-/-- the field that carries "the transport asked for gzip" at each site -/
-theorem gzip_flags :
-    Generated.C14Facts.h1.gzipFlag = "addedGzip" ∧ Generated.C14Facts.h2.gzipFlag = "requestedGzip" ∧
-    Generated.C14Facts.h3.gzipFlag = "requestedGzip" := by decide
+/-- a located decoding chain is the model's shape, and its flag field is the named one -/
+def siteOk (s : Site) (flag : String) (g : Option Generated.C14Facts.Site) : Bool :=
+  g.all (fun g => decide (conv g = { shape s with ask := [] }) && g.gzipFlag == flag)
+
+/-- a located ask-for-gzip condition has the model's conjuncts -/
+def askOk (s : Site) (a : Option (List String)) : Bool :=
+  a.all (fun a => decide (canonAsk (a.map convAsk) = (shape s).ask))
 
 /-- **site_h1** -/
-theorem site_h1 : conv Generated.C14Facts.h1 = shape .h1 := by
+theorem site_h1 : siteOk .h1 "addedGzip" Generated.C14Facts.h1 = true ∧ askOk .h1 Generated.C14Facts.h1Ask = true := by
   decide
 
 /-- **site_h2** -/
-theorem site_h2 : conv Generated.C14Facts.h2 = shape .h2 := by
+theorem site_h2 : siteOk .h2 "requestedGzip" Generated.C14Facts.h2 = true ∧ askOk .h2 Generated.C14Facts.h2Ask = true := by
   decide
 
 /-- **site_h3** -/
-theorem site_h3 : conv Generated.C14Facts.h3 = shape .h3 := by
+theorem site_h3 : siteOk .h3 "requestedGzip" Generated.C14Facts.h3 = true ∧ askOk .h3 Generated.C14Facts.h3Ask = true := by
   decide
 
 /-- What must coincide for the three sites to be one decision: the gzip test and token, the
@@ -107,10 +115,16 @@ guard, and the set of header-rewrite statements of both branches. -/
 def essence (s : SiteShape) : GzipTest × Req.Proto.Bytes × Guard × Option Bool × Option Bool :=
   (s.gzipTest, s.gzipToken, s.autoGuard, strips s.gzipEffects, strips s.autoEffects)
 
-/-- **sites_same_shape** -/
+def sameEssence (a b : Option Generated.C14Facts.Site) : Bool :=
+  match a, b with
+  | some a, some b => decide (essence (conv a) = essence (conv b))
+  | _, _ => true
+
+/-- **sites_same_shape** — the located chains are one decision -/
 theorem sites_same_shape :
-    essence (conv Generated.C14Facts.h1) = essence (conv Generated.C14Facts.h2) ∧
-    essence (conv Generated.C14Facts.h2) = essence (conv Generated.C14Facts.h3) := by
+    sameEssence Generated.C14Facts.h1 Generated.C14Facts.h2 = true ∧
+    sameEssence Generated.C14Facts.h2 Generated.C14Facts.h3 = true ∧
+    sameEssence Generated.C14Facts.h1 Generated.C14Facts.h3 = true := by
   decide
 
 end Bridge.C14
